@@ -553,6 +553,83 @@ theorem grpcweb_call_roundtrip (enc : WireErr → Bytes) (dec : Bytes → Option
       hverdictH, hmergedS, hbody, hrecv, hweb, hvc, hv]
     exact ⟨_, rfl⟩
 
+/-! ### from the protocol functions to the top-level `serve` / `clientDecode`
+    (the functions the `serve` and `cdec` correspondence ops tie to the real code) -/
+
+theorem serve_grpc (enc : WireErr → Bytes) (c : HConn) (p : HProg) (h : c.proto = .grpc) :
+    serve enc c p = serveGrpc enc false c p := by simp [serve, h]
+
+theorem serve_grpcWeb (enc : WireErr → Bytes) (c : HConn) (p : HProg) (h : c.proto = .grpcWeb) :
+    serve enc c p = serveGrpc enc true c p := by simp [serve, h]
+
+theorem serve_connect_stream (enc : WireErr → Bytes) (c : HConn) (p : HProg) (h : c.proto = .connect)
+    (hk : c.kind ≠ .unary) : serve enc c p = serveConnectStream c p := by simp [serve, h, hk]
+
+theorem clientDecode_stream (dec : Bytes → Option WireErr) (cfg : CCfg) (st : Bytes) (r : Resp)
+    (hk : cfg.kind = .server ∨ cfg.kind = .bidi) :
+    clientDecode dec cfg st r =
+      (match cfg.proto with
+       | .connect => clientConnectStream cfg r
+       | _ => clientGrpc dec cfg r) := by
+  unfold clientDecode
+  rcases hk with hk | hk <;> cases hp : cfg.proto <;> simp [hk]
+
+theorem clientDecode_single (dec : Bytes → Option WireErr) (cfg : CCfg) (st : Bytes) (r : Resp)
+    (hk : cfg.kind = .unary ∨ cfg.kind = .client) (hp : cfg.proto ≠ .connect) :
+    clientDecode dec cfg st r = unaryWrap (clientGrpc dec cfg r) := by
+  unfold clientDecode
+  rcases hk with hk | hk <;> cases hpp : cfg.proto <;> simp_all
+
+/-- kinds with a single response: exactly one message and success pass through unchanged -/
+theorem unaryWrap_single (o : ClientObs) (m : Bytes) (hm : o.msgs = [m]) (hr : o.result = none) :
+    (unaryWrap o).msgs = [m] ∧ (unaryWrap o).result = none := by
+  obtain ⟨msgs, result, header, trailer⟩ := o
+  simp only at hm hr
+  subst hm; subst hr
+  simp [unaryWrap]
+
+/-- … an error before any message passes through unchanged -/
+theorem unaryWrap_error_first (o : ClientObs) (e : CErr) (hm : o.msgs = []) (hr : o.result = some e) :
+    (unaryWrap o).msgs = [] ∧ (unaryWrap o).result = some e := by
+  obtain ⟨msgs, result, header, trailer⟩ := o
+  simp only at hm hr
+  subst hm; subst hr
+  simp [unaryWrap]
+
+/-- … and zero or several messages are never reported as success -/
+theorem unaryWrap_not_single (o : ClientObs) (h : o.msgs.length ≠ 1) : (unaryWrap o).result ≠ none := by
+  obtain ⟨msgs, result, header, trailer⟩ := o
+  simp only at h
+  match msgs, result with
+  | [], some e => simp [unaryWrap]
+  | [], none => simp [unaryWrap]
+  | [_], _ => simp at h
+  | _ :: _ :: _, _ => simp [unaryWrap]
+
+/-- **unary_grpc_call_roundtrip**: a unary (or client-streaming) gRPC call at the level of the
+    application API: the handler returns one message and succeeds — the client gets that
+    message and success; the handler fails before sending — the client gets its error. -/
+theorem unary_grpc_call_roundtrip (enc : WireErr → Bytes) (dec : Bytes → Option WireErr) (hc : StatusCodec enc dec)
+    (c : HConn) (cfg : CCfg) (st : Bytes) (p : HProg)
+    (hproto : cfg.proto = .grpc) (hcp : c.proto = .grpc) (hk : cfg.kind = .unary ∨ cfg.kind = .client)
+    (hmax : cfg.max = 0) (hl : ∀ z, c.pool = some z → C01.CompLaws z)
+    (hknown : encodingKnown cfg ((serveGrpc enc false c p).header.get Gen.hdrGrpcEncoding) = true)
+    (hagree : encodingPool cfg ((serveGrpc enc false c p).header.get Gen.hdrGrpcEncoding) = c.pool)
+    (hH : p.header.wf) (hHs : p.header.vals Gen.hdrGrpcStatus = []) :
+    (∀ m, p.sends = [m] → p.result = none →
+      (clientDecode dec cfg st (serve enc c p)).msgs = [m] ∧ (clientDecode dec cfg st (serve enc c p)).result = none) ∧
+    (∀ e, p.sends = [] → p.result = some (.coded e) → e.code ≠ 0 → e.code < 2 ^ 32 →
+      ∃ md, (clientDecode dec cfg st (serve enc c p)).result =
+        some { code := e.code, msg := e.msg, details := e.details, md := md }) := by
+  have hne : cfg.proto ≠ .connect := by rw [hproto]; decide
+  rw [serve_grpc enc c p hcp, clientDecode_single dec cfg st _ hk hne]
+  obtain ⟨hmsgs, hok, herr⟩ := grpc_call_roundtrip_compressed enc dec hc c cfg p hproto hmax hl hknown hagree hH hHs
+  constructor
+  · intro m hs hr
+    exact unaryWrap_single _ m (by rw [hmsgs, hs]) (hok hr)
+  · intro e hs hr h0 h32
+    obtain ⟨md, hmd⟩ := herr e hr h0 h32
+    exact ⟨md, (unaryWrap_error_first _ _ (by rw [hmsgs, hs]) hmd).2⟩
 /-! non-vacuity: the hypotheses of the composed theorems hold for the harness' own RLE
     compressor with a threshold, on a call that sends a compressed and an uncompressed message -/
 def exConn : HConn :=
